@@ -41,6 +41,7 @@ Inductive cpc :=
 | CStart                                 (* task created, not yet started *)
 | CWaitOpen                              (* awaiting _open_waiter *)
 | COpenRes (r : wres)                    (* _open_waiter resolved, wake-up queued *)
+| CMade                                  (* transient inside one run: session created and told connection_made *)
 | CWaitReq (st : stage)                  (* awaiting the head of _request_waiters *)
 | CReqRes (st : stage) (r : wres)        (* request waiter resolved, wake-up queued *)
 | CDone (r : wres).                      (* create_session returned (WOk) or raised (WErr) *)
@@ -279,13 +280,16 @@ Definition flush_recv1 (c : nat) (x : cx) : cx :=
   | true, PRunning => sess_data c (upc (set_rbuf false) x)
   | _, _ => x
   end).
+(* recv_state eof_pending -> eof, session.eof_received(); a False answer half-closes our side too *)
+Definition eof_deliver (c : nat) (x : cx) : cx := sess_eof c (upc (set_rs REof) x).
+Definition eof_answer (c : nat) (x : cx) : cx :=
+  force x (fun x =>
+  if negb (keep (x_ch x)) then write_eof c x else x).
 Definition flush_recv2 (c : nat) (x : cx) : cx :=
   force x (fun x =>
   match rbuf (x_ch x), rpause (x_ch x), rs (x_ch x) with
   | false, PStarting, _ => x
-  | false, _, REofPending =>
-      let x := sess_eof c (upc (set_rs REof) x) in
-      if negb (keep (x_ch x)) then write_eof c x else x
+  | false, _, REofPending => eof_answer c (eof_deliver c x)
   | _, _, _ => x
   end).
 Definition flush_recv3 (c : nat) (e : bool) (x : cx) : cx :=
@@ -392,29 +396,37 @@ Definition create_done (c : nat) (r : wres) (x : cx) : cx :=
 (* `if not result: self.close(); raise ChannelOpenError` *)
 Definition req_false (c : nat) (x : cx) : cx := create_done c WErr (chan_close c x).
 (* _make_request: returns False at once when _send_chan is None *)
+Definition req_sent (c : nat) (st : stage) (x : cx) : cx :=
+  force x (fun x =>
+  upc (set_pc (CWaitReq st)) (csend (KtReq c st) x)).
 Definition make_request (c : nat) (st : stage) (x : cx) : cx :=
   force x (fun x =>
-  if schan (x_ch x) then upc (set_pc (CWaitReq st)) (csend (KtReq c st) x) else req_false c x).
+  if schan (x_ch x) then req_sent c st x else req_false c x).
+(* channel constructor (add_channel) + _open; session_factory() + connection_made;
+   session_started() + create_task(_start_reading) *)
+Definition create_start (c : nat) (tr : bool) (x : cx) : cx :=
+  force x (fun x =>
+  if tr then xp (KtOpen c) (upc (fun ch => set_pc CWaitOpen (set_reg true ch)) x)
+  else create_done c WErr x).
+Definition sess_made (x : cx) : cx := upc (fun ch => set_pc CMade (addlog CbMade (set_se SLive ch))) x.
+Definition sess_started (c : nat) (x : cx) : cx :=
+  force x (fun x =>
+  xk (KStartReading c) (create_done c WOk (upc (fun ch => set_handle true (addlog CbStarted ch)) x))).
 (* `guard` = the check added by /repo cd5d87d in SSHChannel._open(): once the open waiter has been
    resolved the opener re-checks that the channel still has its connection (false = the code before
    that commit: the session was created and told connection_made on a cleaned-up channel) *)
 Definition create_step_gen (guard : bool) (c : nat) (tr : bool) (x : cx) : cx :=
   force x (fun x =>
   match pc (x_ch x) with
-  | CStart => if tr
-              then xp (KtOpen c) (upc (fun ch => set_pc CWaitOpen (set_reg true ch)) x)
-              else create_done c WErr x                       (* add_channel raises *)
+  | CStart => create_start c tr x                            (* add_channel raises without transport *)
   | COpenRes WOk =>
       if guard && negb (reg (x_ch x)) then create_done c WErr x
-      else
-      let x := upc (fun ch => addlog CbMade (set_se SLive ch)) x in
-      make_request c (if pty (x_ch x) then StPty else StFinal) x
+      else make_request c (if pty (x_ch x) then StPty else StFinal) (sess_made x)
   | COpenRes _ => create_done c WErr x
   | CReqRes StPty WOk => make_request c StFinal x
   | CReqRes StFinal WOk =>
       match se (x_ch x) with
-      | SLive => xk (KStartReading c)
-                    (create_done c WOk (upc (fun ch => set_handle true (addlog CbStarted ch)) x))
+      | SLive => sess_started c x
       | _ => create_done c WErr x                             (* self._session is None *)
       end
   | CReqRes _ WFalse => req_false c x
@@ -546,7 +558,7 @@ Fixpoint drain_gen (guard : bool) (fuel : nat) (s : conn) : conn :=
 Definition pc_pot (p : cpc) : nat :=
   match p with
   | CStart | CWaitOpen => 5
-  | COpenRes _ | CWaitReq StPty => 4
+  | COpenRes _ | CMade | CWaitReq StPty => 4
   | CReqRes StPty _ | CWaitReq StFinal => 3
   | CReqRes StFinal _ => 2
   | CNone | CDone _ => 0
